@@ -1,6 +1,6 @@
 """C01 - the parse/compile pipeline is total and fails only with typed, located errors."""
 from . import totality_rules as tr, parser_rules as pr, error_rules as er, line_rules as lr, dialect_rules as dr, builder_rules as br, \
-    matcher_rules as mr, misc_rules as ms
+    matcher_rules as mr, misc_rules as ms, shape_rules as sh
 
 META = {
     "level": "other",
@@ -36,3 +36,4 @@ def run(rep):
     # mode or rule stack turns a valid text into an untyped failure)
     mr.rule_reset(rep, "C01.reset", classes=(mr.MQ, "gherkin.ast_builder.AstBuilder"))
     ms.rule_parse_resets(rep, "C01.parsereset")
+    sh.rule_key_reads(rep, "C01.reads")
